@@ -418,7 +418,9 @@ class FuncAlias(Structured):
             return frozenset(out)
         ret = Val(self.subst(of_receiver(s.ret.own), binding, m) or FRESH, self.subst(of_receiver(s.ret.elem), binding, m) or FRESH, s.ret.kind, s.ret.ekind)
         if is_ctor:
-            ret = Val(FRESH, ret.elem | frozenset().union(*[b.own for k, b in binding.items() if k != 'self'] or [frozenset()]),
+            # the new object holds its arguments - and, for a container handed in (CliqueVector(dict)), what that container holds
+            ret = Val(FRESH, ret.elem | frozenset().union(*[(b.own | b.elem) if b.kind in ('dict', 'list', 'cv', 'tuple', 'set') else b.own
+                                                            for k, b in binding.items() if k != 'self'] or [frozenset()]),
                       KIND_OF_CLASS.get(m.cls.name))
         # self attributes the callee leaves bound
         if self.is_method and recv is not None and U(recv) == 'self' and m.cls is self.fi.cls:
@@ -438,6 +440,10 @@ class FuncAlias(Structured):
             if last == 'copy' and not c.args:
                 deep = recv.kind in ('factor', 'ndarray', None)
                 return Val(FRESH, FRESH if deep else recv.elem, recv.kind, recv.ekind)
+            if last in ('get', 'pop', 'setdefault') and recv.kind in ('dict', 'cv', None) and c.args:
+                # ONE element of the container (or the default handed in)
+                dflt = frozenset().union(*[a.own for a in args[1:]]) if len(args) > 1 else FRESH
+                return Val(recv.elem | dflt, recv.elem | dflt, 'factor' if recv.kind == 'cv' else recv.ekind)
             if last in CONTAINER_READERS:
                 return Val(FRESH, recv.elem, 'list', recv.ekind)
             if last in VIEW_METHODS:
